@@ -267,6 +267,11 @@ func (te *TemporalEvaluator) resolveOperatorInterval(interval ast.Interval) (ast
 	// For past operators with duration bounds, the semantics are:
 	// <-[0d, 7d] means "from 7 days ago to now"
 	// So start should be the larger duration (further in past) and end the smaller
+	// Bounds written as timestamps (<-[2024-01-01, 2024-01-10]) are in
+	// chronological order already and must not be swapped.
+	if start.Type == ast.TimestampBound && end.Type == ast.TimestampBound && start.Timestamp <= end.Timestamp {
+		return ast.NewInterval(start, end), nil
+	}
 	return ast.NewInterval(end, start), nil // Note: swapped because past operators
 }
 
